@@ -309,6 +309,10 @@ where
         }
 
         self.entries = 0;
+        let usage = std::mem::take(&mut self.usage);
+        if usage > 0 {
+            self.metrics.memory_usage.decrease(usage as _);
+        }
         if count > 0 {
             self.metrics.memory_entries.decrease(count);
             self.metrics.memory_remove.increase(count);
